@@ -163,6 +163,18 @@ def observe_eval(c):
     o_outs = [guard('evaluate_circuit_outputs', lambda: c.evaluate_circuit_outputs(dict(a))) for a in asg]
     o_full = [guard('evaluate_full_circuit', lambda: c.evaluate_full_circuit(dict(a))) for a in asg]
     o_circ = [guard('evaluate_circuit', lambda: c.evaluate_circuit(dict(a))) for a in asg]
+    # the same three dictionary entry points, called with ONE assignment dict that the caller keeps
+    # and updates in place between the rows
+    shared = {'o': {}, 'f': {}, 'c': {}}
+
+    def reuse(key, name, fn, x):
+        for lab, v in zip(c.inputs, x):
+            shared[key][lab] = v
+        return guard(name, lambda: fn(shared[key]))
+
+    r_outs = [reuse('o', 'evaluate_circuit_outputs(reused-dict)', c.evaluate_circuit_outputs, x) for x in rows]
+    r_full = [reuse('f', 'evaluate_full_circuit(reused-dict)', c.evaluate_full_circuit, x) for x in rows]
+    r_circ = [reuse('c', 'evaluate_circuit(reused-dict)', c.evaluate_circuit, x) for x in rows]
     tt = guard('get_truth_table', lambda: c.get_truth_table())
     gtt = guard('get_gates_truth_table', lambda: c.get_gates_truth_table())
     single = []
@@ -198,6 +210,9 @@ def observe_eval(c):
         'full': _table(o_full, labels),
         'circ': _table(o_circ, labels),
         'gtt': gtab,
+        'outs_r': _table(r_outs, outs),
+        'full_r': _table(r_full, labels),
+        'circ_r': _table(r_circ, labels),
         'single': single,
         'bad': sorted(bad),
         'exc': excs,
